@@ -71,6 +71,30 @@ class Lock:
 
 
 # ------------------------------------------------------------------------------------------------
+# in-Coq evaluation of sampled cases: the model's own definitions are run by the kernel's vm_compute (no extraction, no
+# OCaml driver) and the integers they print are compared with the integers of the extracted model's output
+def run_incoq(pid, suite, vsrc):
+    """vsrc: a Coq source whose `Eval vm_compute in …` commands print one value per sampled case. Returns the list of
+    integer lists, one per `=` answer."""
+    import re
+    d = os.path.join(CACHE, "incoq")
+    os.makedirs(d, exist_ok=True)
+    f = os.path.join(d, f"{pid}_{suite}.v")
+    open(f, "w").write(vsrc)
+    args = ["coqc", "-noglob", "-w", "-notation-overridden,-deprecated-hint-without-locality,-deprecated-instance-without-locality"]
+    for sub in ("gen", "model", "lemmas"):
+        args += ["-R", os.path.join(COQ, sub), "MF"]
+    rc, out, dt = sh(args + [f], cwd=d, timeout=900)
+    if rc != 0:
+        raise Broken(f"incoq:{suite}", out[-3000:])
+    answers = []
+    for chunk in re.split(r"^\s*= ", out, flags=re.M)[1:]:
+        body = chunk.split("\n     : ")[0]
+        answers.append([int(x) for x in re.findall(r"-?\d+", body.replace("%Z", ""))])
+    return answers
+
+
+# ------------------------------------------------------------------------------------------------
 # build steps
 
 def build_harness():
